@@ -55,20 +55,30 @@ TOL_SAME = 1e-12       # dense vs sparse containers
 # --------------------------------------------------------------------------------------------------
 # strategies
 
+ALIASING_LAYOUTS = [{"name": n, "variant": v} for n, v in [
+    ("csr_matrix", "unsorted"), ("csr_matrix", "unsorted"), ("csr_matrix", "unsorted"),
+    ("csr_matrix", "explicit_zero"), ("csr_matrix", "canonical"), ("csc_matrix", "unsorted"), ("csc_matrix", "unsorted"), ("csc_matrix", "explicit_zero"), ("coo_matrix", "duplicates"),
+    ("coo_matrix", "shuffled"), ("ndarray", "F"), ("ndarray", "strided"), ("ndarray", "C"),
+    ("lil_matrix", "canonical"), ("dok_matrix", "canonical"), ("dia_matrix", "canonical"), ("bsr_matrix", "unit")]]
+
 @st.composite
 def builder_case(draw, n_max=7, builder_names=BUILDERS, container_names=None, eq=None, prior_kinds=None,
-                 connected=None, mle_nmax=MLE_NMAX, all_containers=False, outside=False):
+                 connected=None, mle_nmax=MLE_NMAX, all_containers=False, outside=False, aliasing=False):
     b = draw(st.sampled_from(list(builder_names)))
+    dtypes = ["float64"] if aliasing else None      # float input: no dtype conversion copy shields the caller
     if b == "mle":
-        mat = draw(R.count_matrices(n_min=1, n_max=min(n_max, mle_nmax), connected=True, max_ratio=100))
+        mat = draw(R.count_matrices(n_min=1, n_max=min(n_max, mle_nmax), connected=True, max_ratio=100, dtypes=dtypes))
     else:
-        mat = draw(R.count_matrices(n_min=1, n_max=n_max, connected=connected))
+        mat = draw(R.count_matrices(n_min=1, n_max=n_max, connected=connected, dtypes=dtypes))
     case = {"builder": b, "mat": mat,
             "prior": draw(R.priors(mat["n"], kinds=prior_kinds or ("none", "none", "int", "float", "matrix"))),
             "eq": draw(st.booleans()) if eq is None else eq}
     if outside:
         # containers outside the asserted domain: scipy sparse arrays
         case["container"] = draw(R.containers(R.SPARRAY_CONTAINERS, extra_variants=True))
+    elif aliasing:
+        # layouts whose internal arrays are most easily shared with / normalised in place by the callee
+        case["container"] = draw(st.sampled_from(ALIASING_LAYOUTS))
     elif all_containers:
         # one (drawn) layout variant for every container type
         case["containers"] = [draw(R.containers([name])) for name in R.MATRIX_CONTAINERS]
@@ -439,6 +449,9 @@ CLAUSES += _cl("prior_first", builder_case(7, prior_kinds=("none", "int", "float
                builder_case(12, prior_kinds=("none", "int", "float", "matrix", "matrix")), run_prior_first, 400, 8000)
 CLAUSES += _cl("returned_counts", builder_case(6), builder_case(10), run_returned_counts, 400, 6000)
 CLAUSES += _cl("input_unchanged", builder_case(6), builder_case(10), run_input_unchanged, 500, 8000)
+CLAUSES += _cl("input_unchanged_aliasing", builder_case(6, aliasing=True, prior_kinds=("none", "none", "int", "matrix")),
+               builder_case(10, aliasing=True, prior_kinds=("none", "none", "int", "matrix")), run_input_unchanged,
+               600, 6000)
 CLAUSES += [Clause("product", builder_case(4), run_product, quick=0, thorough=0, exhaustive=exhaustive_product)]
 CLAUSES += [Clause("sparse_array_observed", builder_case(5, outside=True), run_sparse_array,
                    quick=160, thorough=1500)]
